@@ -34,7 +34,8 @@ ASSUMPTIONS = [
 
 TERMINATORS = list(" !^:,;%()-+@#{}&<>/|?'")
 TEXTCH = list("abcXYZ019 _-=+*/\\!?,;:%&()<>{}|^@#'`.") + ["[", "]"]
-CSVPATH_FIELDS = ["line_number", "count_scans", "count_matches", "identity", "delimiter", "quotechar", "valid", "stopped", "count_lines"]
+CSVPATH_FIELDS = ["line_number", "count_scans", "count_matches", "identity", "delimiter", "quotechar", "valid", "stopped",
+                  "count_lines", "count_lines", "count_lines", "line_number", "count_scans", "count_matches"]
 
 
 def budget(tier):
@@ -66,7 +67,7 @@ def _case(draw):
             chunks.append(["text", s])
             prev_ref = False
             continue
-        r = draw(st.sampled_from(["var", "var2", "stackidx", "stacklen", "hname", "hidx", "meta", "csvpath", "csvpath",
+        r = draw(st.sampled_from(["var", "var2", "stackidx", "stacklen", "hname", "hidx", "meta", "csvpath", "csvpath", "csvpath",
                                   "track", "numidx", "numlen", "sparse"]))
         sparse = [c for c in table["cols"] if not c["dense"] and " " not in c["name"]]
         if r == "sparse" and not sparse:
